@@ -1,9 +1,75 @@
-(* C14 -- formatting preserves the program and is idempotent.  (statements only; under construction) *)
-From Coq Require Import List NArith Bool.
-From PV Require Import Lib.ListX Gen.GenCodegen.
+(* C14 -- formatting preserves the program and is idempotent.
+   Statements only; proofs are in Proofs/Fmt*.v.  Tables: Gen/GenCodegen.v, regenerated from /repo on every run
+   (formatter: codegen/ast.rs binding_strength / associativity / can_bind_left / keywords / identifier classes;
+    parser: parser/expr.rs pratt levels and operator tokens), packaged by Model/FmtInst.v as F_prql / P_prql / I_prql.
+
+   Scope of the theorems: expressions (operators, ranges, calls with named arguments and aliases, pipelines in
+   parentheses, tuples, arrays, case) at unlimited width, at token level; identifiers, strings, integers, floats at
+   character level.  Line breaking, statement layout, types, lambdas and annotations are covered only by the
+   differential oracle of vplib/props/c14.py. *)
+From Coq Require Import List NArith ZArith Bool Arith.
+From PV Require Import Lib.ListX Model.FmtLit Model.FmtPratt Model.Fmt Model.FmtInst
+  Proofs.FmtPrattProofs Proofs.FmtProofs Proofs.FmtInstProofs Gen.GenCodegen.
 Import ListNotations.
 Local Open Scope N_scope.
 
+Notation wf_expr e := (wf e = true /\ ops_ok nbin nun e = true /\ is_named e = false).
+
+(* ---- tie to the source: the algorithmic functions the models restate are textually unchanged *)
 Theorem fmt_source_pins : GenCodegen.pins_changed = [].
 Proof. vm_compute. reflexivity. Qed.
 Print Assumptions fmt_source_pins.
+
+(* ---- the table obligation: whenever the formatter omits parentheses around a child at (parent, side), the
+        parser regroups to the same tree (and the side conditions on symbols, unary layers and strengths) *)
+Theorem fmt_compat : compat F_prql P_prql nbin nun = true.
+Proof. vm_compute. reflexivity. Qed.
+Print Assumptions fmt_compat.
+
+(* ---- expressions (Theta-1, instance 3).
+   Full statement (FALSE of the unchanged tree -- finding C14-range-pow-leak):
+     forall e, wf_expr e -> exists f0, forall f, f0 <= f -> parse_prql f (fmt_toks e) = Some e *)
+Theorem fmt_expr_roundtrip_refuted :
+  exists e, wf e = true /\ ops_ok nbin nun e = true /\ is_named e = false /\
+            forall f, parse_prql f (fmt_toks e) <> Some e.
+Proof. exact expr_roundtrip_refuted. Qed.
+Print Assumptions fmt_expr_roundtrip_refuted.
+
+(* generic in the tables: any formatter / parser tables that pass `compat` round-trip every tree outside the leak class *)
+Theorem fmt_expr_roundtrip_generic : forall F T nb nu, compat F T nb nu = true ->
+  forall e, wf e = true -> ops_ok nb nu e = true -> is_named e = false -> leak F e PUnspec = false ->
+  exists f0, forall f, (f0 <= f)%nat -> parse T f (fmt_top F e) = Some e.
+Proof. exact (fun F T nb nu H => roundtrip F T nb nu (compat_sound F T nb nu H)). Qed.
+Print Assumptions fmt_expr_roundtrip_generic.
+
+Theorem fmt_expr_roundtrip_partial :
+  forall e, wf e = true -> ops_ok nbin nun e = true -> is_named e = false -> leak F_prql e PUnspec = false ->
+  exists f0, forall f, (f0 <= f)%nat -> parse_prql f (fmt_toks e) = Some e.
+Proof. exact (roundtrip F_prql P_prql nbin nun (compat_sound _ _ _ _ fmt_compat)). Qed.
+Print Assumptions fmt_expr_roundtrip_partial.
+
+(* ---- idempotence: fmt (parse (fmt t)) = fmt t.   Full statement false for the same class. *)
+Theorem fmt_idempotent_refuted :
+  exists e f e', wf e = true /\ ops_ok nbin nun e = true /\ parse_prql f (fmt_toks e) = Some e' /\ fmt_toks e' <> fmt_toks e.
+Proof. exact idempotent_refuted. Qed.
+Print Assumptions fmt_idempotent_refuted.
+
+Theorem fmt_idempotent_partial :
+  forall e, wf e = true -> ops_ok nbin nun e = true -> is_named e = false -> leak F_prql e PUnspec = false ->
+  forall f e', parse_prql f (fmt_toks e) = Some e' -> fmt_toks e' = fmt_toks e.
+Proof. exact (idempotent F_prql P_prql nbin nun (compat_sound _ _ _ _ fmt_compat)). Qed.
+Print Assumptions fmt_idempotent_partial.
+
+(* more fuel never changes a parse: the `exists f0` above is not an artefact of the fuel *)
+Theorem parse_fuel_monotone : forall f g ts e, (f <= g)%nat -> parse_prql f ts = Some e -> parse_prql g ts = Some e.
+Proof. exact (parse_mono P_prql). Qed.
+Print Assumptions parse_fuel_monotone.
+
+(* non-vacuity: concrete trees satisfy the hypotheses, and one of them is in the leak class *)
+Example ex_wf_tree : wf_expr (EBin 5 (idn 97) (EUn 0 (idn 98))) /\ leak F_prql (EBin 5 (idn 97) (EUn 0 (idn 98))) PUnspec = false.
+Proof. vm_compute. repeat split; reflexivity. Qed.
+Example ex_leak_tree : leak F_prql leak_witness PUnspec = true.
+Proof. vm_compute. reflexivity. Qed.
+Example ex_roundtrip : parse_prql 40 (fmt_toks (ECall (idn 102) [ENamed [110] (idn 97); EUn 0 (idn 98); EGroup GTup [EAlias [120] (EBin 0 (idn 99) (idn 100))]]))
+                       = Some (ECall (idn 102) [ENamed [110] (idn 97); EUn 0 (idn 98); EGroup GTup [EAlias [120] (EBin 0 (idn 99) (idn 100))]]).
+Proof. vm_compute. reflexivity. Qed.
